@@ -81,7 +81,8 @@ def main():
       sa_spec = [-1] if (cls == "bits" and ak == "auto") else []
     bounds = (None, None)
     if cls == "bits" and ak == "auto_po2" and rnd.random() < 0.4:
-      bounds = rnd.choice([(g - 6, None), (None, g - 3), (g - 5, g - 2), (g - 12, g + 6)])
+      bounds = rnd.choice([(g - 6, None), (None, g - 3), (g - 5, g - 2), (g - 12, g + 6),
+                           (0, None), (None, 0), (0, 0), (0, 3), (-3, 0)])      # a bound of exactly 0 is a bound too
     k = 0
     if bounds == (None, None) and g >= -4 and rnd.random() < 0.6:
       k = rnd.choice([-3, -1, 2, 5])
